@@ -93,7 +93,9 @@ PROPS = {
         level='proof',
         scope='every contract is functional: ids, sharing tables, io_map and the structure of the emitted text are functions of '
               '(tree, options); compile builds its manager from Default; no verified function reads global state.',
-        not_decided=['parse determinism (combinators)', 'the clock window of time tests (compile_time_comp is external: SystemTime)'],
+        not_decided=['parse determinism (combinators)',
+                     'the clock window of time tests: no clock model in the verifier — covered only by the BOUNDED stand-in BOUNDED.clock_window (three '
+                     'time-test compilations more than a second apart in one process; labelled bounded, not counted as proved)'],
     ),
     'C08': dict(
         level='proof',
